@@ -69,6 +69,22 @@ def check_case(ctx, cs):
             pts = obj.evalpts
             if not (close_seq(pts[0], obj.ctrlpts[0]) and close_seq(pts[-1], obj.ctrlpts[-1])):
                 ctx.violate("evalpts", tg + ["clamped_ends"], small, {"first": pts[0], "last": pts[-1]})
+        # the control points are replaced AFTER the curve has been sampled: sampled points, ends and length follow the new polygon
+        def moved():
+            ob = build(sh)
+            ob.sample_size = 7
+            _ = ob.evalpts, operations.length_curve(ob)
+            ob.ctrlpts = [[x + 50.0 for x in q] for q in ob.ctrlpts]
+            return [list(x) for x in ob.evalpts], [list(x) for x in ob.bbox], [list(x) for x in ob.ctrlpts], operations.length_curve(ob)
+        ok, r = _try(ctx, "evalpts", tg + ["ctrlpts_replaced_after_sampling"], small, moved)
+        if ok:
+            pts, bb, cps, L = r
+            if any(x < a - 1e-9 or x > b + 1e-9 for q in pts for x, a, b in zip(q, bb[0], bb[1])):
+                ctx.violate("evalpts", tg + ["ctrlpts_replaced_after_sampling", "outside_bbox"], small, {"bbox": bb, "first": pts[0]})
+            elif o["clamped"] and not (close_seq(pts[0], cps[0]) and close_seq(pts[-1], cps[-1])):
+                ctx.violate("evalpts", tg + ["ctrlpts_replaced_after_sampling", "clamped_ends"], small, {"first": pts[0], "first_ctrlpt": cps[0]})
+            elif not (chord - 1e-9 <= L <= poly + 1e-9):
+                ctx.violate("operations.length_curve", tg + ["ctrlpts_replaced_after_sampling"], small, {"chord": chord, "length": L, "polygon": poly})
         # sampled points of objects created with a coarse ``precision`` option, at sample sizes whose step is not a terminating decimal
         for prec in (6, 3):
             if not all((fr(k) * 10 ** prec).denominator == 1 for k in sh["kv"][0]):
